@@ -12,6 +12,7 @@ pub fn run_history(hist: &Value, out: &mut dyn Write) {
     let h = hist["h"].clone();
     init_record(&h, out);
     let mut bar: Option<(ProgressBar, Spy)> = None;
+    let mut keep_mp: Option<indicatif::MultiProgress> = None;
     for (i, op) in hist["ops"].as_array().cloned().unwrap_or_default().iter().enumerate() {
         let mut rec = op.as_object().cloned().unwrap_or_default();
         let name = op["op"].as_str().unwrap_or("");
@@ -30,11 +31,25 @@ pub fn run_history(hist: &Value, out: &mut dyn Write) {
                     } else {
                         match ProgressStyle::with_template(&template) { Ok(s) => s.progress_chars(&chars), Err(e) => return (vec![], format!("{e}")) }
                     };
-                    let spy = Spy::new(op["tw"].as_u64().unwrap_or(200) as u16, 100);
+                    let tw = op["tw"].as_u64().unwrap_or(200) as u16;
+                    let tw0 = op.get("tw0").and_then(|x| x.as_u64()).unwrap_or(0) as u16;
                     let len = if op["haslen"].as_bool().unwrap_or(true) { Some(op["len"].as_u64().unwrap_or(0)) } else { None };
+                    if tw0 > 0 {
+                        // a member of a MultiProgress whose terminal is resized between two paints: every frame is laid out for the width the terminal has then
+                        let spy = Spy::new(tw0, 100);
+                        let mp = indicatif::MultiProgress::with_draw_target(ProgressDrawTarget::term_like(Box::new(spy.clone())));
+                        let pb = mp.add(ProgressBar::with_draw_target(len, ProgressDrawTarget::hidden()).with_finish(ProgressFinish::Abandon).with_style(style));
+                        pb.tick();
+                        let _ = painted_strs(&spy, 0);
+                        spy.set_size(tw, 100);
+                        keep_mp = Some(mp);
+                        bar = Some((pb, spy));
+                    } else {
+                    let spy = Spy::new(tw, 100);
                     let pb = ProgressBar::with_draw_target(len, ProgressDrawTarget::term_like(Box::new(spy.clone())))
                         .with_finish(ProgressFinish::Abandon).with_style(style);
                     bar = Some((pb, spy));
+                    }
                     (vec![], String::new())
                 }
                 _ => {
@@ -57,4 +72,6 @@ pub fn run_history(hist: &Value, out: &mut dyn Write) {
         rec.insert("i".into(), json!(i + 1));
         writeln!(out, "{}", Value::Object(rec)).unwrap();
     }
+    drop(bar);
+    drop(keep_mp);
 }
